@@ -14,6 +14,7 @@ variable {α : Type} [DecidableEq α]
 
 /-! ## New -/
 
+omit [DecidableEq α] in
 /-- **The chunks of `New`**, for every *valid* edit script `es` of `L`, `R` (validity only, no
 canonicity, is used): every chunk consumes exactly `L[LStart, LEnd)` and produces exactly
 `R[RStart, REnd)`; the chunks are in order, disjoint on both sides and separated by at least one
@@ -94,6 +95,7 @@ example : (addContextChunks ([1, 2, 3, 4, 5, 6, 7, 8, 9] : List Nat) [1, 0, 3, 4
 
 /-! ## Unify -/
 
+omit [DecidableEq α] in
 /-- `New`'s chunks are *aligned* (`Proofs.Mdiff.Aligned L R 1 1 cs`: walking both inputs from line 1,
 the gap before each chunk is the same text, of the same length, in `L[prev.LEnd, c.LStart)` and
 `R[prev.REnd, c.RStart)`, and after the last chunk the rest of `L` equals the rest of `R`).
@@ -152,6 +154,7 @@ theorem unify_ok_partial (L R : List α) (n : Nat) (cs cs' : List (Chunk α)) (h
   obtain ⟨u, u1, u2, u3, u4, u5⟩ := unify_rel hok hna hal hne h2
   exact ⟨u, u1, u2, u3, u4, patch_of_aligned u2 u5, u5⟩
 
+omit [DecidableEq α] in
 /-- `(*Diff).Unify` changes nothing but the chunks -/
 theorem unify_edits (d d' : Diff α) (h : d.unify? = .ok d') :
     d'.edits = d.edits ∧ d'.left = d.left ∧ d'.right = d.right := by
@@ -206,6 +209,17 @@ example :
       fun d => (Diff.unify? d).toOption.map fun d => d.chunks)
       = some (some [⟨[⟨.emit, [3], []⟩, ⟨.copy, [], [3]⟩, ⟨.emit, [2], []⟩, ⟨.copy, [], [2]⟩],
           1, 3, 1, 5⟩]) := by decide
+
+/-- **`Unify` after `AddContext(n)` after the chunking of `New`, for every valid edit script** (not
+only the one `EditScript` computes): the statement asked for as `unify_ok`, at full strength for
+`cs = newChunks es`. -/
+theorem unify_ok_new (es : List (Edit α)) (L R : List α) (n : Nat) (cs' : List (Chunk α))
+    (hvalid : EditScript.Valid es L R) (hctx : addContextChunks L R n (newChunks es) = some cs') :
+    ∃ u, unifyChunks cs' = .ok u ∧ AllOK u L R ∧ Ascending u ∧ NonAdjacent u ∧ patch L u = R := by
+  have r := newChunks_res es hvalid
+  obtain ⟨u, h⟩ := unify_ok_partial L R n (newChunks es) cs' r.ok r.na r.al
+    (fun c hc => ⟨edits_ne_nil_of_range (r.ok c hc) (r.nonempty c hc), r.noemit c hc⟩) hctx
+  exact ⟨u, h.1, h.2.1, h.2.2.1, h.2.2.2.1, h.2.2.2.2.1⟩
 
 /-! ## Regression: finding F4 (AddContext before commit 67e3ccb) and the generated fact -/
 
